@@ -90,14 +90,14 @@ def classify_json(h, res, cbmc_stats, prop):
 
 # ----------------------------------------------------------------------------
 
-def run_batch(shard, crate, hs, mods, logdir, jobs):
+def run_batch(shard, crate, hs, mods, logdir, jobs, memkb=None):
     """one `cargo kani -j` invocation; returns {harness name: (res, stats)} , errors"""
     vk.sync_overlay(shard, mods)
-    out_json = os.path.join(logdir, 'kani-%s-s%d.json' % (crate, shard.k))
+    out_json = os.path.join(logdir, 'kani-%s-s%d%s.json' % (crate, shard.k, '-ext' if memkb else ''))
     if os.path.exists(out_json):
         os.remove(out_json)
     log = vk.run_kani(shard, crate, hs, logdir, jobs=max(2, jobs), playback=False,
-                      extra_args=['--output-format=terse', '--export-json', out_json])
+                      extra_args=['--output-format=terse', '--export-json', out_json], memkb=memkb)
     text = open(log, errors='replace').read()
     results, errors = {}, []
     if os.path.exists(out_json):
@@ -194,23 +194,31 @@ def check(prop, tier, seed, only=None, jobs=0, write_evidence=True):
     by_crate = {}
     for h in hs:
         by_crate.setdefault(h.mod.crate, []).append(h)
-    batches = []
+    # phase 1: core harnesses (normal address-space cap); phase 2: non-core extensions, which may
+    # legitimately run out of memory -- their cap is divided among the parallel jobs so that they
+    # cannot take the machine (62 GB, no swap) or a core harness down with them
+    batches, ext_batches = [], []
     for crate, lst in sorted(by_crate.items()):
         lst.sort(key=lambda h: -h.cost)
-        batches.append((crate, lst))
-    shards = vk.acquire_shards(len(batches))
-    per = jobs or cpu_jobs(min(len(batches), len(shards)))
-    say('check %s tier=%s: %d harnesses in %d crate batch(es), %d shard(s), -j %d' % (prop, tier, len(hs), len(batches), len(shards), per))
+        core, ext = [h for h in lst if h.core], [h for h in lst if not h.core]
+        if core:
+            batches.append((crate, core, None))
+        if ext:
+            ext_batches.append((crate, ext, 'ext'))
+    shards = vk.acquire_shards(max(len(batches), len(ext_batches), 1))
+    per = jobs or cpu_jobs(min(max(len(batches), len(ext_batches), 1), len(shards)))
+    ext_memkb = min(24 * 1024 * 1024, (52 * 1024 * 1024) // max(1, per * max(1, min(len(ext_batches), len(shards)))))
+    say('check %s tier=%s: %d harnesses in %d crate batch(es)%s, %d shard(s), -j %d' % (prop, tier, len(hs), len(batches), (' + %d extension batch(es)' % len(ext_batches)) if ext_batches else '', len(shards), per))
     results, errors, logs = {}, [], []
     lock = threading.Lock()
-    queue = list(batches)
+    queue = []
 
     def worker(shard):
         while True:
             with lock:
                 if not queue:
                     return
-                crate, lst = queue.pop(0)
+                crate, lst, kind = queue.pop(0)
             ms = {h.mod.module: h.mod for h in lst}
             byname = {m.module: m for m in mods}
             for m in list(ms.values()):
@@ -218,7 +226,7 @@ def check(prop, tier, seed, only=None, jobs=0, write_evidence=True):
                     ms[r] = byname[r]
             ms = sorted(ms.values(), key=lambda m: m.module)
             try:
-                r, e, log, _ = run_batch(shard, crate, lst, ms, logdir, per)
+                r, e, log, _ = run_batch(shard, crate, lst, ms, logdir, per, memkb=ext_memkb if kind else None)
             except vk.HarnessMismatch as ex:
                 r, e, log = {}, [str(ex)], None
             with lock:
@@ -226,8 +234,12 @@ def check(prop, tier, seed, only=None, jobs=0, write_evidence=True):
                 errors.extend(e)
                 logs.append(log)
     try:
-        with ThreadPoolExecutor(len(shards)) as ex:
-            list(ex.map(worker, shards))
+        for phase in (batches, ext_batches):
+            if not phase:
+                continue
+            queue.extend(phase)
+            with ThreadPoolExecutor(len(shards)) as ex:
+                list(ex.map(worker, shards))
         known = load_known()
         verdicts = []
         for h in hs:
@@ -387,7 +399,7 @@ def rerun_under_kani(prop, rp):
         if os.path.exists(out_json):
             os.remove(out_json)
         vk.run_kani(shard, h.mod.crate, [h], os.path.join(LOGS, 'replay'), jobs=2, playback=False,
-                    extra_args=['--output-format=terse', '--export-json', out_json])
+                    extra_args=['--output-format=terse', '--export-json', out_json], memkb=memkb)
         j = json.load(open(out_json))
         failed = [c.get('description') for r in j['verification_results']['results'] for c in (r.get('checks') or []) if c.get('status') == 'Failure']
     finally:
